@@ -27,10 +27,12 @@ CONSTANTS Mode,       \* "C24", "C27", "C31", "C32": configuration universe and 
 
 VARIABLES cfgC, cfgS, au, conn, cst, sst, c2s, s2c, trC, trS, sessC, sessS, cache, keysS, issued,
           presented, decision, adv, closed,
-          verify     \* the client of this connection verifies the server (not InsecureSkipVerify)
+          verify,    \* the client of this connection verifies the server (not InsecureSkipVerify)
+          now,       \* Config.Time of the server, in hours
+          auto       \* the server's ticket keys are on automatic rotation (no SetSessionTicketKeys)
 
 vars == <<cfgC, cfgS, au, conn, cst, sst, c2s, s2c, trC, trS, sessC, sessS, cache, keysS, issued,
-          presented, decision, adv, closed, verify>>
+          presented, decision, adv, closed, verify, now, auto>>
 
 -----------------------------------------------------------------------------
 (* configuration universes *)
@@ -69,7 +71,11 @@ Aus ==
 MaxConn == IF Mode \in {"C24", "C31", "C27"} THEN 2 ELSE 1
 \* C27: multi-step authentication histories - each connection's client verifies or not
 VerifyChoices == IF Mode = "C27" THEN BOOLEAN ELSE {TRUE}
-TicketKeys == {"t1", "t2"}
+\* ticket keys are records [id, c]: c = creation time (automatic rotation), id distinguishes
+\* administrator-set keys and the keys the adversary may choose for a forged ticket (all-zero,
+\* all-0xFF, a public value such as the key name) - none of which a server key ever equals
+TKey(id, c) == [id |-> id, c |-> c]
+ForeignIds == {"zero", "ff", "public"}
 
 NegTab == [c \in CCfgs, s \in SCfgs |-> Negotiate(c, s, 0)]
 
@@ -99,7 +105,9 @@ Init ==
   /\ conn = 1 /\ cst = "start" /\ sst = "start"
   /\ c2s = <<>> /\ s2c = <<>> /\ trC = <<>> /\ trS = <<>>
   /\ sessC = Null /\ sessS = Null /\ cache = Null
-  /\ keysS = <<"t1">> /\ issued = {} /\ presented = Null /\ decision = "none"
+  /\ now = 0 /\ auto \in (IF Mode = "C31" THEN BOOLEAN ELSE {FALSE})
+  /\ keysS = (IF auto THEN AutoStep(<<>>, 0) ELSE <<TKey("t1", 0)>>)
+  /\ issued = {} /\ presented = Null /\ decision = "none"
   /\ adv = AdvBudget /\ closed = FALSE
 
 -----------------------------------------------------------------------------
@@ -421,21 +429,29 @@ S_SeesAlert ==
   /\ UNCHANGED <<cfgC, cfgS, au, conn, cst, c2s, s2c, trC, trS, sessC, sessS, cache, keysS, issued,
                  presented, decision, adv, closed>>
 
+ConnLimit == IF auto THEN 3 ELSE MaxConn
 NextConnection ==
-  /\ Terminal /\ conn < MaxConn /\ ~(cst = "done" /\ sessC.vers = 13 /\ s2c # <<>>)
+  /\ Terminal /\ conn < ConnLimit /\ ~(cst = "done" /\ sessC.vers = 13 /\ s2c # <<>>)
   /\ conn' = conn + 1 /\ cst' = "start" /\ sst' = "start"
   /\ c2s' = <<>> /\ s2c' = <<>> /\ trC' = <<>> /\ trS' = <<>> /\ sessC' = Null /\ sessS' = Null
   /\ presented' = Null /\ decision' = "none" /\ closed' = FALSE
   /\ verify' \in VerifyChoices
-  /\ UNCHANGED <<cfgC, cfgS, au, cache, keysS, issued, adv>>
+  \* Config.ticketKeys at the start of the connection: automatic rotation by the documented policy
+  /\ keysS' = (IF auto THEN AutoStep(keysS, now) ELSE keysS)
+  /\ UNCHANGED <<cfgC, cfgS, au, cache, issued, adv, now, auto>>
 
-Between == Terminal /\ conn < MaxConn /\ Mode = "C31"
+Between == Terminal /\ conn < ConnLimit /\ Mode = "C31"
+\* Config.Time advances between connections (hours): within a day, past a rotation, past a key's life
+Tick ==
+  /\ Between /\ auto /\ now < 300 /\ \E d \in {10, 30, 180} : now' = now + d
+  /\ UNCHANGED <<cfgC, cfgS, au, conn, cst, sst, c2s, s2c, trC, trS, sessC, sessS, cache, keysS, issued,
+                 presented, decision, adv, closed, verify, auto>>
 Rotate ==     \* SetSessionTicketKeys(new, old...)
-  /\ Between /\ Len(keysS) = 1 /\ keysS' = <<"t2">> \o keysS
+  /\ Between /\ ~auto /\ Len(keysS) = 1 /\ keysS' = <<TKey("t2", 0)>> \o keysS
   /\ UNCHANGED <<cfgC, cfgS, au, conn, cst, sst, c2s, s2c, trC, trS, sessC, sessS, cache, issued,
                  presented, decision, adv, closed>>
 DropOld ==    \* SetSessionTicketKeys(current only)
-  /\ Between /\ Len(keysS) > 1 /\ keysS' = <<Head(keysS)>>
+  /\ Between /\ ~auto /\ Len(keysS) > 1 /\ keysS' = <<Head(keysS)>>
   /\ UNCHANGED <<cfgC, cfgS, au, conn, cst, sst, c2s, s2c, trC, trS, sessC, sessS, cache, issued,
                  presented, decision, adv, closed>>
 
@@ -492,7 +508,8 @@ A_Insert ==
 A_Ticket ==
   /\ Mode = "C31" /\ Between /\ adv > 0 /\ ~IsNull(cache) /\ adv' = adv - 1
   /\ \/ cache' = [cache EXCEPT !.ticket.ok = FALSE]                                  \* Mutate / Truncate
-     \/ cache' = [cache EXCEPT !.ticket = Seal("foreign", [cache.st EXCEPT !.ms = <<"other">>])]   \* Foreign
+     \/ \E f \in ForeignIds :     \* Foreign: sealed under a key of the adversary's choosing, with a secret of its choosing
+           cache' = [cache EXCEPT !.ticket = Seal(TKey(f, 0), [cache.st EXCEPT !.ms = <<"other">>])]
   /\ UNCHANGED <<cfgC, cfgS, au, conn, cst, sst, c2s, s2c, trC, trS, sessC, sessS, keysS, issued,
                  presented, decision, closed>>
 
@@ -502,17 +519,17 @@ Endpoints == C_SendCH \/ C_RecvServerFlight \/ C_RecvServerFinished \/ C_RecvTic
              \/ S_RecvClientHello \/ S_RecvClientFlight12 \/ S_RecvClientFinished12 \/ S_RecvClientFlight13
              \/ C_SeesClose \/ S_SeesClose \/ C_SeesAlert \/ S_SeesAlert
 
-Next == ((Endpoints \/ Adversary \/ EnvClose \/ Rotate \/ DropOld) /\ UNCHANGED verify) \/ NextConnection
+Next == ((Endpoints \/ Adversary \/ EnvClose \/ Rotate \/ DropOld) /\ UNCHANGED <<verify, now, auto>>) \/ NextConnection \/ Tick
 
 Spec == Init /\ [][Next]_vars
-FairSpec == Spec /\ WF_vars(Endpoints /\ UNCHANGED verify)
+FairSpec == Spec /\ WF_vars(Endpoints /\ UNCHANGED <<verify, now, auto>>)
 
 -----------------------------------------------------------------------------
 (* properties *)
 CStates == {"start", "wait_sf", "wait_sfin", "done", "failed"}
 SStates == {"start", "wait_cf", "wait_cfin", "wait_cf13", "done", "failed"}
 \* C32: whatever the adversary does, an endpoint is running, done or failed - nothing else
-TypeOK == cst \in CStates /\ sst \in SStates /\ adv \in 0..AdvBudget /\ conn \in 1..MaxConn
+TypeOK == cst \in CStates /\ sst \in SStates /\ adv \in 0..AdvBudget /\ conn \in 1..3
 
 BothDone == cst = "done" /\ sst = "done"
 Proj(s) == [vers |-> s.vers, suite |-> s.suite, alpn |-> s.alpn, resumed |-> s.resumed, ekm |-> s.ekm]
@@ -596,7 +613,9 @@ Witness(k) ==
     [] k = 22 -> decision = "resume" /\ presented.k # Head(keysS)                                     \* resumed under an old key
     [] k = 23 -> decision = "full" /\ presented \in issued /\ presented.k \notin Rng(keysS)            \* rotated out
     [] k = 24 -> decision = "full" /\ ~IsNull(presented) /\ ~presented.ok                             \* mutated
-    [] k = 25 -> decision = "full" /\ ~IsNull(presented) /\ presented.k = "foreign"
+    [] k = 25 -> decision = "full" /\ ~IsNull(presented) /\ presented.k.id \in ForeignIds
+    [] k = 31 -> auto /\ decision = "full" /\ presented \in issued /\ presented.k \notin Rng(keysS)   \* key expired by automatic rotation
+    [] k = 32 -> auto /\ decision = "resume" /\ conn = 3
     [] k = 26 -> closed /\ Terminal
     [] k = 27 -> cst = "failed" /\ sst = "failed" /\ adv < AdvBudget
     [] k = 28 -> conn = 2 /\ verify /\ ~IsNull(cache) /\ ~cache.verified /\ Len(trC) >= 1 /\ IsNull(trC[1].ticket)  \* unverified session refused
@@ -604,9 +623,9 @@ Witness(k) ==
     [] k = 30 -> BothDone /\ sessC.vers = 13 /\ au.ccert /\ cfgS.auth >= 1                                      \* 1.3 with client certificate
 Wanted == CASE Mode = "C24" -> (11..16) \cup {30}
             [] Mode = "C27" -> {11, 12} \cup (17..21) \cup {28, 29}
-            [] Mode = "C31" -> {13, 14} \cup (22..25)
+            [] Mode = "C31" -> {13, 14} \cup (22..25) \cup {31, 32}
             [] Mode = "C32" -> {11, 12, 26, 27}
-ProbeInit == Init /\ \A k \in 11..30 : TLCSet(k, FALSE)
+ProbeInit == Init /\ \A k \in 11..32 : TLCSet(k, FALSE)
 ProbeSpec == ProbeInit /\ [][Next]_vars
 Probe == \A k \in Wanted : Witness(k) => TLCSet(k, TRUE)
 Reached == LET missing == {k \in Wanted : ~TLCGet(k)} IN
